@@ -114,7 +114,7 @@ impl<'a> PGen<'a> {
         }
         let d1 = d - 1;
         match t {
-            T::Num => match self.rng.below(22) {
+            T::Num => match self.rng.below(25) {
                 0 | 1 => self.leaf(T::Num),
                 2 | 3 | 4 => {
                     let op = *self.rng.pick(ARITH);
@@ -149,6 +149,23 @@ impl<'a> PGen<'a> {
                 18 => bin("??", E::InRef((*self.rng.pick(&["k", "nope", "xs"])).to_string()), self.num_lit()),
                 19 => call(id("arity"), vec![self.expr(T::Fun, d1)]),
                 20 => E::Fact(Box::new(num(self.rng.range(0, 8)))),
+                23 => {
+                    // wrong argument count (an error raised by the arity check)
+                    let f = self.expr(T::Fun, d1);
+                    if self.rng.chance(1, 2) { call(f, vec![]) } else { call(f, vec![num(1), num(2), num(3), num(4)]) }
+                }
+                21 | 22 => {
+                    // unit conversion; spellings that differ only by case are distinct units
+                    // (mm / Mm, kb / kB / KB, mA / MA ...) or ambiguous
+                    let pairs: &[(&str, &str)] = &[
+                        ("mm", "m"), ("Mm", "m"), ("km", "mm"), ("kb", "b"), ("kB", "b"), ("KB", "b"), ("MB", "kB"), ("mb", "b"),
+                        ("mA", "A"), ("MA", "A"), ("mV", "V"), ("MV", "V"), ("ms", "s"), ("Ms", "s"), ("mW", "W"), ("MW", "W"),
+                        ("ft", "m"), ("celsius", "fahrenheit"), ("kg", "lb"), ("MM", "m"), ("ma", "A"),
+                    ];
+                    let (a, b) = *self.rng.pick(pairs);
+                    let (a, b) = if self.rng.chance(1, 3) { (b, a) } else { (a, b) };
+                    call(id("convert"), vec![self.expr(T::Num, d1), st(a), st(b)])
+                }
                 _ => call(id("to_number"), vec![call(id("to_string"), vec![self.expr(T::Num, d1)])]),
             },
             T::Str => match self.rng.below(11) {
@@ -163,7 +180,7 @@ impl<'a> PGen<'a> {
                 9 => call(id("replace"), vec![self.expr(T::Str, d1), st("a"), st("bb")]),
                 _ => cond(self.expr(T::Bool, d1), self.expr(T::Str, d1), self.expr(T::Str, d1)),
             },
-            T::Bool => match self.rng.below(10) {
+            T::Bool => match self.rng.below(12) {
                 0 => self.leaf(T::Bool),
                 1 | 2 | 3 => bin(*self.rng.pick(CMP), self.expr(T::Num, d1), self.expr(T::Num, d1)),
                 4 => bin(*self.rng.pick(&["and", "or", "&&", "||"]), self.expr(T::Bool, d1), self.expr(T::Bool, d1)),
@@ -174,9 +191,30 @@ impl<'a> PGen<'a> {
                     call(id(*self.rng.pick(&["every", "some"])), vec![self.expr(T::LNum, d1), p])
                 }
                 8 => bin(".==", self.any(d1), self.any(d1)),
+                10 | 11 => {
+                    // two distinct closure values with the same text and the same captures,
+                    // compared through language equality (directly, or via unique / includes)
+                    let ncap = self.rng.range(2, 4) as usize;
+                    let names = ["ca", "cb", "cc", "cd"];
+                    let params: Vec<&str> = names[..ncap].to_vec();
+                    let mut body = id("x");
+                    for n in &params {
+                        body = bin("+", body, id(n));
+                    }
+                    let factory = E::Lam(params.iter().map(|n| Arg::Req(n.to_string())).collect(), Box::new(lam(&["x"], body)));
+                    let args: Vec<E> = (0..ncap).map(|_| self.num_lit()).collect();
+                    let mk = || call(factory.clone(), args.clone());
+                    match self.rng.below(5) {
+                        0 => bin("==", mk(), mk()),
+                        1 => bin(".==", mk(), mk()),
+                        2 => call(id("includes"), vec![E::List(vec![mk()]), mk()]),
+                        3 => bin(".==", call(id("len"), vec![call(id("unique"), vec![E::List(vec![mk(), mk(), mk()])])]), num(1)),
+                        _ => bin(".==", E::Rec(vec![RK::Static("f".into(), mk())]), E::Rec(vec![RK::Static("f".into(), mk())])),
+                    }
+                }
                 _ => bin(*self.rng.pick(&[".==", ".!="]), self.expr(T::Str, d1), self.expr(T::Str, d1)),
             },
-            T::LNum => match self.rng.below(20) {
+            T::LNum => match self.rng.below(24) {
                 0 | 1 => self.leaf(T::LNum),
                 2 => E::List((0..self.rng.below(5)).map(|_| self.expr(T::Num, d1)).collect()),
                 3 => call(id("range"), vec![num(self.rng.range(0, 7))]),
@@ -204,7 +242,25 @@ impl<'a> PGen<'a> {
                     // callback with index parameter
                     bin("via", self.expr(T::LNum, d1), E::Lam(vec![Arg::Req("x".into()), Arg::Req("i".into())], Box::new(bin("+", id("x"), id("i")))))
                 }
-                _ => call(id("map"), vec![call(id("zip"), vec![self.expr(T::LNum, d1), self.expr(T::LNum, d1)]), lam(&["pr"], idx(id("pr"), num(0)))]),
+                19 => call(id("map"), vec![call(id("zip"), vec![self.expr(T::LNum, d1), self.expr(T::LNum, d1)]), lam(&["pr"], idx(id("pr"), num(0)))]),
+                20 | 21 => {
+                    // the same list value reached through a route that allocates nothing new
+                    let inner = self.expr(T::LNum, d1);
+                    match self.rng.below(7) {
+                        0 => call(lam(&["x"], id("x")), vec![inner]),
+                        1 => bin("into", inner, lam(&["x"], id("x"))),
+                        2 => idx(E::List(vec![inner]), num(0)),
+                        3 => doblk(vec![], inner),
+                        4 => dot(E::Rec(vec![RK::Static("k".into(), inner)]), "k"),
+                        5 => call(id("reduce"), vec![E::List(vec![]), E::Lam(vec![Arg::Req("acc".into()), Arg::Req("x".into())], Box::new(id("acc"))), inner]),
+                        _ => call(E::Lam(vec![], Box::new(inner)), vec![]),
+                    }
+                }
+                _ => {
+                    // broadcasting with the scalar on the left, and the remaining operators
+                    let op = *self.rng.pick(&["-", "*", "/", "%", "^", "+"]);
+                    if self.rng.chance(1, 2) { bin(op, self.expr(T::Num, d1), self.expr(T::LNum, d1)) } else { bin(op, self.expr(T::LNum, d1), self.expr(T::Num, d1)) }
+                }
             },
             T::LStr => match self.rng.below(8) {
                 0 | 1 => self.leaf(T::LStr),
@@ -281,7 +337,7 @@ impl<'a> PGen<'a> {
                 // depth probe: recursion to within a few calls of the limit
                 let r = self.fresh();
                 let p = self.fresh();
-                let k = self.rng.range(880, 1003);
+                let k = if self.rng.chance(1, 2) { self.rng.range(992, 1003) } else { self.rng.range(880, 1003) };
                 let body = cond(bin(".==", id("n"), num(0)), num(0), bin("+", num(1), call(id(&r), vec![bin("-", id("n"), num(1))])));
                 self.vars.push((r.clone(), T::Fun));
                 self.vars.push((p.clone(), T::Num));
